@@ -214,7 +214,7 @@ def control_in_operand(n, operand=False) -> bool:
     if t in ("store", "dstore", "pstore"):
         return control_in_operand(n[2], True)
     if t == "call":
-        return any(control_in_operand(a, True) for a in n[2] if a and a[0] != "ref")
+        return any(control_in_operand(a, True) for a in n[2] if a and a[0] not in ("ref", "refparam"))
     if t == "assert":
         return any(control_in_operand(c, True) for c in n[1])
     if t == "txna":
